@@ -41,9 +41,9 @@ _MAPS = {}
 
 def MapSort(ks, vs):
     """Datatype for an immutable finite-map value with key sort ks and value sort vs."""
-    key = (ks.name(), vs.name()) if not z3.is_array_sort(vs) else (ks.name(), str(vs))
+    key = (str(ks), str(vs))
     if key not in _MAPS:
-        name = "Map_%s_%s" % (ks.name(), vs.name().replace(" ", "_"))
+        name = "Map_%s_%s" % (str(ks).replace(" ", "_"), str(vs).replace(" ", "_"))
         d = z3.Datatype(name)
         d.declare("mk_" + name, ("dom_" + name, z3.ArraySort(ks, B)), ("val_" + name, z3.ArraySort(ks, vs)))
         _MAPS[key] = d.create()
@@ -336,6 +336,8 @@ class VEmptyDict(V):
 def unwrap(v, t):
     """Python-side value -> z3 expression of sort_of(t)."""
     k = t[0]
+    if k == "map" and hasattr(v, "m"):
+        v = v.m
     if isinstance(v, VEmptyDict) and k == "map":
         ks, vs = sort_of(t[1]), sort_of(t[2])
         c, _, _ = map_parts(sort_of(t))
@@ -371,8 +373,6 @@ def unwrap(v, t):
         if not isinstance(v, VTuple) or len(v.items) != len(t[1]):
             raise TypeError("tuple shape mismatch for %r" % (t,))
         return srt.constructor(0)(*[unwrap(x, tt) for x, tt in zip(v.items, t[1])])
-    if k == "map" and hasattr(v, "m"):
-        v = v.m
     if k == "int" and isinstance(v, VBool):
         return z3.If(v.z, z3.IntVal(1), z3.IntVal(0))
     if k == "obj":
